@@ -39,7 +39,8 @@ func vScenarioC14(rc *runCtx) {
 			cfg.srvTmux = ""
 		}
 	}
-	cfg.fork = false
+	// -f (hand the transfer to a background process) needs the tunnel: through relays it needs it on every hop
+	cfg.fork = cfg.tunnel && tp.Bool("c14.fork", 350)
 	cfg.timeout = []int{5, 20, 0, 60}[tp.Pick("c14.timeout", 3, 3, 1, 1)] // 0: the user asked never to time out
 	cfg.trigVersion = ""
 	cfg.protocol = 0
